@@ -54,6 +54,8 @@ type Assoc struct {
 	// WriteScript, if set, scripts SCTPWrite outcomes: bytes accepted and error.
 	WriteScript func(seq int, b []byte) (int, error)
 	wseq        int
+	// Remote, if set, is what RemoteAddr reports (several associations in one scenario).
+	Remote string
 }
 
 func New() *Assoc {
@@ -174,4 +176,9 @@ func (a *Assoc) Pending() int {
 }
 
 func (a *Assoc) LocalAddr() net.Addr  { return addr("10.1.2.3:3868") }
-func (a *Assoc) RemoteAddr() net.Addr { return addr("10.9.8.7:45678") }
+func (a *Assoc) RemoteAddr() net.Addr {
+	if a.Remote != "" {
+		return addr(a.Remote)
+	}
+	return addr("10.9.8.7:45678")
+}
